@@ -325,7 +325,105 @@ def cases(draw):
     return {"stmts": stmts, "labels": sorted(g.labels), "nt": distinct0 >= 2 and alias_write_then_read}
 
 
+# ---- classes of the same NAME declared by different modules (one module cannot declare two: a diagnostic): each object runs the
+# methods of ITS class. Every class is called Counter and has the methods step / twice / value and the fields n / log; what
+# `step` adds differs per declaration. Expected output by a direct simulation.
+TWIN_DELTAS = {"up": 1, "down": -10, "wide": 1000}
+
+
+def twin_module(name, layout):
+    d = TWIN_DELTAS[name]
+    fields = "\tn: int\n\tlog: [int...]\n" if layout == 0 else "\tlog: [int...]\n\tn: int\n"
+    helper = "" if layout < 2 else "base_%s = %d\n" % (name, d)
+    add = str(d) if layout < 2 else "base_%s" % name        # layout 2: the method reads a module variable (it captures something)
+    return (helper + "export class Counter {\n" + fields + "\tconstructor(self, start: int) {\n\t\tself.n = start\n\t\tself.log = [start]\n\t}\n"
+            "\tfn step(self) -> Self {\n\t\tself.n = self.n + %s\n\t\tself.log.push(self.n)\n\t\treturn self\n\t}\n"
+            "\tfn twice(self) -> int {\n\t\tself.step()\n\t\tself.step()\n\t\treturn self.n\n\t}\n\tfn value(self) -> int {\n\t\treturn self.n\n\t}\n}\n"
+            "export make_%s: fn(int) -> Counter = fn(start: int) -> Counter {\n\treturn Counter(start)\n}\n" % (add, name))
+
+
+def twin_program(case):
+    """case["twin"] = {"objs": [module name per object, in construction order], "ops": [(object index, op)], "layouts": {module: 0|1|2}, "local": bool}"""
+    tw = case["twin"]
+    mods = sorted(set(tw["objs"]))
+    files, lines, exp = {}, [], []
+    if tw.get("local"):
+        # the same classes declared inside functions of ONE module
+        for m in mods:
+            body = twin_module(m, tw["layouts"].get(m, 0)).replace("export class", "class").split("export make_")[0]
+            lines.append("make_%s = fn(start: int) -> int {\n%s\tc = Counter(start)\n\tc.step()\n\treturn c.twice() * 1000 + c.log.len()\n}" % (m, "".join("\t" + l + "\n" for l in body.rstrip("\n").split("\n"))))
+        lines.append("print \"@start\"")
+        for i, m in enumerate(tw["objs"]):
+            lines.append("print make_%s(%d)" % (m, 10 * (i + 1)))
+            exp.append(str((10 * (i + 1) + 3 * TWIN_DELTAS[m]) * 1000 + 4))
+        return {"main.ms": "\n".join(lines) + "\n"}, ["@start"] + exp
+    for m in mods:
+        files[m + ".ms"] = twin_module(m, tw["layouts"].get(m, 0))
+        lines.append("import make_%s from %s" % (m, m))
+    lines.append("print \"@start\"")
+    state = []
+    for i, m in enumerate(tw["objs"]):
+        lines.append("o%d = make_%s(%d)" % (i, m, 10 * (i + 1)))
+        state.append({"m": m, "n": 10 * (i + 1), "log": [10 * (i + 1)]})
+    for i, op in tw["ops"]:
+        o = state[i]
+        d = TWIN_DELTAS[o["m"]]
+        if op == "step":
+            o["n"] += d; o["log"].append(o["n"])
+            lines.append("print o%d.step().value()" % i); exp.append(str(o["n"]))
+        elif op == "twice":
+            for _ in range(2):
+                o["n"] += d; o["log"].append(o["n"])
+            lines.append("print o%d.twice()" % i); exp.append(str(o["n"]))
+        elif op == "value":
+            lines.append("print o%d.value()" % i); exp.append(str(o["n"]))
+        elif op == "log":
+            lines.append("print o%d.log" % i); exp.append("[" + ", ".join(str(x) for x in o["log"]) + "]")
+        else:
+            j = (i + 1) % len(state)
+            lines.append("print o%d is o%d" % (i, j)); exp.append("true" if i == j else "false")
+    files["main.ms"] = "\n".join(lines) + "\n"
+    return files, ["@start"] + exp
+
+
+def twin_cases():
+    import itertools
+    out = []
+    script = ["step", "value", "twice", "log", "is", "step", "log"]
+    for n in (2, 3):
+        for objs in itertools.product(["up", "down", "wide"], repeat=n):
+            if len(set(objs)) < 2:
+                continue
+            for layouts in ({}, {"down": 1}, {"down": 2, "up": 2, "wide": 2}, {"up": 2}):
+                # every object gets the whole script; objects take turns op by op / one after the other
+                ops_inter = [(i, op) for op in script for i in range(n)]
+                ops_seq = [(i, op) for i in range(n) for op in script]
+                for ops in (ops_inter, ops_seq):
+                    out.append({"twin": {"objs": list(objs), "ops": ops, "layouts": layouts}, "labels": ["feat:same-named-classes-in-different-modules"], "nt": True})
+    return out
+
+
+def check_twin(case):
+    files, exp = twin_program(case)
+    out = "\n".join(exp) + "\n"
+    sc = {"files": {"p/q/r/" + k: v for k, v in files.items()}, "cwd": "p/q/r",
+          "steps": [{"id": "run", "argv": ["mscript", "run", "main.ms", "-q"]},
+                    {"id": "compile", "argv": ["mscript", "compile", "main.ms", "--quick"]},
+                    {"id": "execute", "argv": ["mscript", "execute", "main.mmm"], "only_if_ok": "compile"}],
+          "asserts": [{"kind": "stdout_eq", "step": "run", "value": out}, {"kind": "exit", "step": "run", "in": ["ok"]},
+                      {"kind": "stdout_eq", "step": "execute", "value": out}, {"kind": "exit", "step": "execute", "in": ["ok"]}]}
+    r = CaseResult(nt_keys=[files["main.ms"] + str(sorted(case["twin"]["layouts"].items()))], labels=case["labels"] + ["model:ok"],
+                   sample={"history": files["main.ms"], "expected_stdout_tail": out[-300:]})
+    res, fails, _ = scenario.execute(sc)
+    if fails:
+        r.failure = fail("; ".join(fails) + "\n" + "\n".join("--- %s\n%s" % kv for kv in sorted(files.items())), "C08:stdout:%s:%s" % (res["run"].klass, case["labels"][0]), sc,
+                         case={"twin": case["twin"]})
+    return r
+
+
 def check(case):
+    if "twin" in case:
+        return check_twin(case)
     stmts = [("print", S("@start"))] + case["stmts"] + [("print", S("@end"))]
     src, _ = ms.program(stmts)
     hist, _ = ms.program(case["stmts"] if case.get("raw") else case["stmts"][6:])
@@ -420,7 +518,7 @@ def enumerated(tier, seed):
              ("print", ("bin", "is", ("mcall", ("mcall", V("ca"), "twin", []), "bump", [I(1)]), V("ca"))),
              ("print", ("mcall", ("mcall", ("mcall", V("ca"), "bump", [I(1)]), "other", [V("cb")]), "val", [])),
              ("print", F(V("ca"), "v")), ("print", F(V("cb"), "v"))]
-    return [{"stmts": chain, "labels": ["feat:method-chained-on-returned-object"], "nt": True, "raw": True},
+    return twin_cases() + [{"stmts": chain, "labels": ["feat:method-chained-on-returned-object"], "nt": True, "raw": True},
             {"stmts": inlist, "labels": ["feat:index_of-object-in-list"], "nt": True, "raw": True},
             {"stmts": esc, "labels": ["feat:self-escapes-from-constructor"], "nt": True, "raw": True},
             {"stmts": coll, "labels": ["feat:field-named-like-a-global"], "nt": True, "raw": True},
@@ -438,4 +536,6 @@ def n_random(tier):
 
 
 def files(case):
+    if "twin" in case:
+        return twin_program(case)[0]
     return {"main.ms": ms.program([("print", S("@start"))] + case["stmts"] + [("print", S("@end"))])[0]}
